@@ -65,7 +65,44 @@ pub fn diags(toks: &[&str]) -> String {
     let refs: Vec<&str> = texts.iter().map(|s| s.as_str()).collect();
     let state = compile_from_strings(&refs, Some(&options));
     let d = state.diagnostics.into_updated(&state.ast, &state.files, &options);
-    show_diags(&d)
+    let shown = show_diags(&d);
+    // the diagnostics are also written in the human-readable format (snippets, underlines) into a buffer: a crash there is a crash
+    {
+        use slicec::diagnostic_emitter::DiagnosticEmitter;
+        let mut human = parse_opts(toks[0]);
+        human.diagnostic_format = slicec::slice_options::DiagnosticFormat::Human;
+        human.disable_color = true;
+        let mut out: Vec<u8> = Vec::new();
+        let mut emitter = DiagnosticEmitter::new(&mut out, &human, &state.files);
+        let _ = emitter.emit_diagnostics(d);
+    }
+    shown
+}
+
+/// lookup <opts> <hex file>... -- <hex scoped identifier>...  ->  the E010 reports, then what Ast::find_node finds for every identifier:
+/// "module <nested identifier>", "entity <file> <row>:<col> <kind>" (where its identifier is written), "none" or "other"
+pub fn lookup(toks: &[&str]) -> String {
+    use slicec::ast::node::Node;
+    use slicec::grammar::{Entity, NamedSymbol};
+    let options = parse_opts(toks[0]);
+    let cut = toks.iter().position(|t| *t == "--").unwrap_or(toks.len());
+    let texts: Vec<String> = toks[1..cut].iter().map(|h| text_of(h)).collect();
+    let refs: Vec<&str> = texts.iter().map(|s| s.as_str()).collect();
+    let state = compile_from_strings(&refs, Some(&options));
+    let mut out = Vec::new();
+    for h in &toks[(cut + 1).min(toks.len())..] {
+        let key = text_of(h);
+        out.push(match state.ast.find_node(&key) {
+            Err(_) => "none".to_string(),
+            Ok(Node::Module(m)) => format!("module {}", m.borrow().nested_module_identifier()),
+            Ok(node) => match <&dyn Entity>::try_from(node) {
+                Ok(e) => { let sp = e.raw_identifier().span(); format!("entity {} {}:{} {}", sp.file, sp.start.row, sp.start.col, e.kind()) }
+                Err(_) => "other".to_string(),
+            },
+        });
+    }
+    let d = state.diagnostics.into_updated(&state.ast, &state.files, &options);
+    format!("{} || {}", show_diags(&d), out.join(" ; "))
 }
 
 /// emit <json|human> <opts> (<hexname>:<hextext>)...  ->  hex of what DiagnosticEmitter wrote (colours disabled) || diagnostics || totals
@@ -135,7 +172,15 @@ pub fn run(toks: &[&str]) -> String {
         }
         if parts.len() > 2 && parts[2] != "-" { std::fs::write(dir.join("gens").join(format!("{name}.reply")), crate::codec::unhex(parts[2])).unwrap(); }
         let args = if parts.len() > 1 && parts[1] != "-" { format!(",{}", text_of(parts[1])) } else { String::new() };
-        argv.push(format!("--generator={}{}", gpath.display(), args));
+        // how the generator's path is written on the command line: absolute (default), relative to the working directory, with a '.' component or a doubled slash
+        let spelled = match parts.get(3).copied().unwrap_or("abs") {
+            "rel" => format!("../gens/{name}"),
+            "dot" => format!("{}/./{name}", dir.join("gens").display()),
+            "dslash" => format!("{}//{name}", dir.join("gens").display()),
+            "updown" => format!("{}/../gens/{name}", dir.join("gens").display()),
+            _ => gpath.display().to_string(),
+        };
+        argv.push(format!("--generator={}{}", spelled, args));
         gens.push(name);
         i += 1;
     } }
